@@ -186,4 +186,39 @@ def deleteRecordReq (scope : Option Scope) (specRoles : Option (List Role)) : Re
       | none => .addrs (addresses (scope.owners.filter fun p => !p.optional))
     else .addrs (addresses scope.owners)
 
+/-! ### adding / removing scope owners through the message server
+
+The owner list the message ASKS for, and when the message is well-formed; the signature
+requirement is `scopeUpdateReq` of the STORED scope: every stored owner — the ones being
+removed included — counts. -/
+
+/-- the owners after `AddScopeOwner` -/
+def ownersAfterAdd (owners new : List Party) : List Party := owners ++ new
+
+/-- the owners after `DeleteScopeOwner`: every entry whose address is named is dropped -/
+def ownersAfterRemove (owners : List Party) (addrs : List Addr) : List Party :=
+  owners.filter fun o => !addrs.contains o.address
+
+/-- no two parties of the list have the same address and role -/
+def noRepeats (ps : List Party) : Bool :=
+  decide (ps.Pairwise fun p q => ¬(p.address = q.address ∧ p.role = q.role))
+
+/-- `MsgAddScopeOwnerRequest` is well-formed for the stored scope: new owners with real
+addresses and roles, not repeating each other or a stored owner; at least one signer. -/
+def addOwnersWellFormed (env : Env) (stored : Option Scope) (new : List Party) (signers : List Addr) : Bool :=
+  !new.isEmpty && new.all (fun p => env.valid p.address && p.role != roleUNSPECIFIED) && noRepeats new
+    && !signers.isEmpty
+    && match stored with
+      | none => false
+      | some ex => new.all fun n => !ex.owners.any fun o => o.address == n.address && o.role == n.role
+
+/-- `MsgDeleteScopeOwnerRequest` is well-formed for the stored scope: real addresses, each of
+them an owner's, at least one owner stays; at least one signer. -/
+def removeOwnersWellFormed (env : Env) (stored : Option Scope) (addrs : List Addr) (signers : List Addr) : Bool :=
+  !addrs.isEmpty && addrs.all env.valid && !signers.isEmpty
+    && match stored with
+      | none => false
+      | some ex => addrs.all (fun a => (addresses ex.owners).contains a)
+          && !(ownersAfterRemove ex.owners addrs).isEmpty
+
 end PvModel.Signers.Spec
